@@ -1,4 +1,5 @@
 import TlxVerif.Proofs.C11Sem
+import TlxVerif.Proofs.C11BarM
 /-!
 # C11 — Semaphore conserves tokens and strands no waiter; both barriers release together
 
@@ -7,6 +8,9 @@ All theorems quantify over every reachable state of the transition systems in
 spurious wake-ups, for arbitrary numbers of threads / operations / generations.
 -/
 namespace TlxVerif.C11
+set_option linter.unusedSimpArgs false
+
+section Semaphore
 open Sem
 
 /-! ## Semaphore -/
@@ -38,7 +42,7 @@ theorem sem_take_only_when_covered {s : State} {t c : Nat} {o} (h : step s t c =
     (o.st.acquired = s.acquired ∧ s.value ≤ o.st.value) ∨
     ∃ d sl, pendingTake s t = some (d, sl) ∧ d + sl ≤ s.value ∧ o.st.value = s.value - d ∧
       o.st.acquired = s.acquired + d := by
-  step_cases h
+  sem_step_cases h
   all_goals (
     have hpc := pcT_of_getElem? ‹s.thr[t]? = some _›
     have hops := opsT_of_getElem? ‹s.thr[t]? = some _›)
@@ -52,7 +56,7 @@ theorem sem_wait_return {s : State} {t c k r d sl : Nat} {o} (h : step s t c = s
     (hop : (opsT s.thr t)[k]? = some (.wait d sl))
     (hpre : pcT s.thr t = .lock k ∨ pcT s.thr t = .waiting k) (hpost : pcT o.st.thr t = .unlock k r) :
     d + sl ≤ s.value ∧ r = s.value - d ∧ sl ≤ r := by
-  step_cases h
+  sem_step_cases h
   all_goals (
     have hlt := lt_of_getElem? ‹s.thr[t]? = some _›
     have hpc := pcT_of_getElem? ‹s.thr[t]? = some _›
@@ -125,5 +129,165 @@ example : ∃ s, Reachable 0 d7Threads s ∧ s.ws = [1] ∧ s.value = 0 ∧ (∀
   · unfold enabled pcOf
     have : s.thr[t]? = none := by simp; omega
     simp [this]
+
+end Semaphore
+
+/-! ## ThreadBarrierMutex -/
+
+open BarM in
+/-- **Mutex barrier: released together, action in between.** In every reachable state, for all barrier threads
+    `t`, `u`: `left t ≤ actions ≤ arrived u`.  Hence a thread has completed its (g+1)-th `wait()` only if the action
+    has run g+1 times, which in turn happened only after every thread had entered its (g+1)-th `wait()`. -/
+theorem barM_release_together {n gens : Nat} (hn : 1 ≤ n) {s : BarM.State} (h : BarM.Reachable n gens s)
+    {t u : Nat} (ht : isBar s t) (hu : isBar s u) :
+    (getT s.thr t).left ≤ s.actions ∧ s.actions ≤ (getT s.thr u).arrived :=
+  ⟨((reachable_inv hn h).bnd t ht).2.2, ((reachable_inv hn h).bnd u hu).1⟩
+
+open BarM in
+/-- **Mutex barrier: the action runs once per generation, by the last arriver, before anyone is released.**
+    A transition changes `actions` only by +1, and only as part of the arrival step (`lock`) of a barrier thread
+    `t` taken when all other threads have already arrived in the current generation; afterwards every thread
+    has arrived exactly `actions` times, `t` still holds the mutex, and nobody has left the generation. -/
+theorem barM_action_by_last_arriver {n gens : Nat} (hn : 1 ≤ n) {s : BarM.State} (h : BarM.Reachable n gens s)
+    {t c : Nat} {o} (hs : BarM.step s t c = some o) :
+    o.st.actions = s.actions ∨
+    (o.st.actions = s.actions + 1 ∧ isBar s t ∧ (getT s.thr t).pc = .lock ∧ o.st.owner = some t ∧
+      (∀ u, isBar s u → u ≠ t → (getT s.thr u).arrived = s.actions + 1) ∧
+      (∀ u, isBar s u → (getT o.st.thr u).arrived = o.st.actions ∧ (getT o.st.thr u).left < o.st.actions)) := by
+  have hi := reachable_inv hn h
+  have hi' := inv_step hs hi
+  have hb' := hi'.bnd
+  have hpcs' := hi'.pcs
+  have hmut' := hi'.mutex
+  have hfr := frame_step hs
+  barm_step_cases hs
+  all_goals (first | (left; simp; done) | skip)
+  -- the only remaining case: the arrival that completes the generation
+  all_goals (
+    have hlt := lt_of_getElem? ‹s.thr[t]? = some _›
+    have hth := getT_of_getElem? ‹s.thr[t]? = some _›
+    right
+    have hb : isBar s t := isBar_of_pc hi hlt (by simp [*])
+    have hcur := lock_cur hi hb (by simp [*]))
+  have hbnd := hi.bnd
+  simp only [upd_thr, setCount_thr, upd_actions, setCount_actions, upd_owner, setCount_owner] at hb' ⊢
+  refine ⟨trivial, hb, by rw [hth]; assumption, trivial, ?_, ?_⟩
+  · intro u hu hut
+    have h1 := hb' u hu
+    have h2 := hbnd u hu
+    rw [getT_modify] at h1
+    have hut' : ¬ t = u := fun h => hut h.symm
+    simp only [hut', false_and, if_false] at h1
+    omega
+  · intro u hu
+    have h1 := hb' u hu
+    have h2 := hbnd u hu
+    rw [getT_modify] at h1 ⊢
+    by_cases hut : t = u
+    · subst hut; simp [hlt] at h1 ⊢; omega
+    · simp only [hut, false_and, if_false] at h1 ⊢; omega
+open BarM in
+/-- **Mutex barrier: no deadlock, reusable for any number of generations.** If no thread can take a step
+    (without a spurious wake-up), then every thread — the n barrier threads, each of which calls `wait()` `gens`
+    times, and the main thread joining them — has finished. -/
+theorem barM_no_deadlock {n gens : Nat} (hn : 1 ≤ n) {s : BarM.State} (h : BarM.Reachable n gens s)
+    (hrest : ∀ t, BarM.enabled s t = false) : ∀ t, t < s.thr.length → (getT s.thr t).pc = .finished := by
+  have hi := reachable_inv hn h
+  have hlen := hi.len
+  -- the mutex is free
+  have hown : s.owner = none := by
+    cases ho : s.owner with
+    | none => rfl
+    | some u =>
+      have hu := (hi.mutex u).mpr ho
+      have hr := hrest u
+      unfold BarM.enabled at hr
+      rw [pcOf_eq] at hr
+      cases hp : (getT s.thr u).pc <;> simp [hp] at hu hr
+  -- the main thread has spawned everybody
+  have hmain := hi.main
+  have hr0 := hrest 0
+  unfold BarM.enabled at hr0
+  rw [pcOf_eq] at hr0
+  have hsp : s.spawned = s.n := by
+    unfold mainOk at hmain
+    cases hp : (getT s.thr 0).pc <;> simp [hp] at hmain hr0 <;> omega
+  -- a barrier thread is finished or blocked in the wait set
+  have hbar : ∀ u, isBar s u → (getT s.thr u).pc = .finished ∨ (u ∈ s.ws ∧ ∃ cur, (getT s.thr u).pc = .waiting cur) := by
+    intro u hu
+    have hr := hrest u
+    have hp := hi.pcs u hu
+    unfold BarM.enabled at hr
+    rw [pcOf_eq] at hr
+    unfold pcOk at hp
+    cases hpc : (getT s.thr u).pc <;> simp [hpc, hown] at hp hr ⊢
+    · have := hu.2; omega
+    · exact hr
+  -- nobody is a pending notifier, so every thread in the wait set waits for the current generation
+  have hgen : ∀ u, u ∈ s.ws → (getT s.thr u).left = s.actions := by
+    rcases hi.wsGen with ⟨x, hbx, hx⟩ | hg
+    · have hr := hrest x
+      unfold BarM.enabled at hr
+      rw [pcOf_eq, hx] at hr
+      simp at hr
+    · exact hg
+  -- if somebody waited, all n threads would have arrived in the current generation
+  have hnone : ∀ u, isBar s u → (getT s.thr u).pc = .finished := by
+    intro u hu
+    rcases hbar u hu with hfin | ⟨hws, cur, hcur⟩
+    · exact hfin
+    · exfalso
+      have hlu := hgen u hws
+      have hpu := hi.pcs u hu
+      simp [pcOk, hcur] at hpu
+      have hall : ∀ v, 1 ≤ v → v ≤ s.n → (fun th : Thread => decide (th.arrived = s.actions + 1)) (getT s.thr v) = true := by
+        intro v h1 h2
+        have hv : isBar s v := ⟨h1, h2⟩
+        rcases hbar v hv with hfin | ⟨hwsv, curv, hcurv⟩
+        · have hpv := hi.pcs v hv
+          have hbv := hi.bnd v hv
+          simp [pcOk, hfin] at hpv
+          omega
+        · have hlv := hgen v hwsv
+          have hpv := hi.pcs v hv
+          simp [pcOk, hcurv] at hpv
+          simp; omega
+      have hge := countP_ge_of_all (p := fun th : Thread => decide (th.arrived = s.actions + 1)) hlen hall
+      have := hi.cnt
+      have := hi.cntLt
+      omega
+  intro t ht
+  by_cases ht0 : t = 0
+  · subst ht0
+    unfold mainOk at hmain
+    cases hp : (getT s.thr 0).pc <;> simp [hp] at hmain hr0 ⊢
+    rename_i i
+    have := hnone (i + 1) ⟨by omega, by omega⟩
+    rw [pcOf_eq, this] at hr0
+    simp at hr0
+  · exact hnone t ⟨by omega, by omega⟩
+
+open BarM in
+/-- when all barrier threads have finished, the action has run exactly `gens` times -/
+theorem barM_actions_total {n gens : Nat} (hn : 1 ≤ n) {s : BarM.State} (h : BarM.Reachable n gens s)
+    (hfin : ∀ u, isBar s u → (getT s.thr u).pc = .finished) : s.actions = gens := by
+  have hi := reachable_inv hn h
+  have hp := reachable_params h
+  have hb : isBar s 1 := ⟨by omega, by rw [hp.1]; exact hn⟩
+  have h1 := hi.bnd 1 hb
+  have h2 := hi.pcs 1 hb
+  simp [pcOk, hfin 1 hb] at h2
+  omega
+
+
+/-! Non-vacuity: two threads, two generations, one concrete interleaving in which thread 1 waits on the
+    condition variable in both generations; all invariants above apply to every prefix of it. -/
+def barMChoices : List (Nat × Nat) :=
+  [(0,0),(0,0),(1,0),(1,0),(1,0),(0,0),(2,0),(2,0),(2,0),(2,0),(2,0),(2,0),(1,0),(1,0),(1,0),(1,0),(1,0),(2,0),(2,0),(0,0),(0,0)]
+
+example : (BarM.runChoices (BarM.init 2 2) barMChoices).map
+    (fun s => (s.actions, s.step, s.thr.map (fun th => (th.arrived, th.left)), s.thr.all (fun th => th.pc == .finished)))
+    = some (2, 0, [(0, 0), (2, 2), (2, 2)], true) := by decide
+
 
 end TlxVerif.C11
